@@ -103,7 +103,7 @@ class C10(Check):
     prop_file = "theories/Properties/Properties_C10.v"
     theorems = ("C10_callback_at_most_once", "C10_callback_only_when_ready_and_zero", "C10_counters_stay_zero",
                 "C10_terminated_implies_callback_returned", "C10_termination_reported",
-                "C10_undisciplined_refuted")
+                "C10_undisciplined_refuted", "C10_refcount_release_before_retain_witness")
     comp = "termlocal"
     extract_file = "theories/Extract/Extract_TermLocal.v"
     extracted = ("termlocal",)
